@@ -264,6 +264,77 @@ type md5Use struct {
 	Out ssa.Value // the value holding the 16-octet digest ([16]byte call result or the []byte returned by Sum(nil))
 }
 
+// rangeLiteralElems: call is `w.Write(part)` executed first thing in every iteration of `for _, part := range lit`, lit a
+// local slice literal: the literal's elements in order.
+func rangeLiteralElems(call *ssa.Call) ([]ssa.Value, bool) {
+	if len(call.Call.Args) != 1 {
+		return nil, false
+	}
+	ld, ok := call.Call.Args[0].(*ssa.UnOp)
+	if !ok || ld.Op != token.MUL {
+		return nil, false
+	}
+	ia, ok := ld.X.(*ssa.IndexAddr)
+	if !ok {
+		return nil, false
+	}
+	lit, ok := ia.X.(*ssa.Slice)
+	if !ok || lit.Low != nil || lit.High != nil {
+		return nil, false
+	}
+	al, ok := lit.X.(*ssa.Alloc)
+	if !ok {
+		return nil, false
+	}
+	elems := arrayStores(al)
+	if len(elems) == 0 {
+		return nil, false
+	}
+	for _, e := range elems {
+		if e == nil {
+			return nil, false
+		}
+	}
+	inc, ok := ia.Index.(*ssa.BinOp)
+	if !ok || inc.Op != token.ADD {
+		return nil, false
+	}
+	ph, ok := inc.X.(*ssa.Phi)
+	if !ok || ph.Block().Comment != "rangeindex.loop" {
+		return nil, false
+	}
+	h := ph.Block()
+	hif, ok := h.Instrs[len(h.Instrs)-1].(*ssa.If)
+	if !ok {
+		return nil, false
+	}
+	cmp, ok := hif.Cond.(*ssa.BinOp)
+	if !ok || cmp.Op != token.LSS || cmp.X != ssa.Value(inc) {
+		return nil, false
+	}
+	if n, isK := constInt(cmp.Y); isK {
+		if int(n) != len(elems) {
+			return nil, false
+		}
+	} else if lc, isC := cmp.Y.(*ssa.Call); !isC || len(lc.Call.Args) != 1 || lc.Call.Args[0] != ssa.Value(lit) {
+		return nil, false
+	}
+	// executed on every iteration, before anything can leave the loop
+	if call.Block() != h.Succs[0] || len(call.Block().Preds) != 1 {
+		return nil, false
+	}
+	for _, ins := range call.Block().Instrs {
+		if ins == ssa.Instruction(call) {
+			break
+		}
+		switch ins.(type) {
+		case *ssa.Call, *ssa.Store, *ssa.If, *ssa.Return:
+			return nil, false
+		}
+	}
+	return elems, true
+}
+
 func md5Inputs(fn *ssa.Function) (inputs []md5Use, ok bool) {
 	ok = true
 	for _, call := range callsTo(fn, "crypto/md5", "Sum") {
@@ -292,6 +363,15 @@ func md5Inputs(fn *ssa.Function) (inputs []md5Use, ok bool) {
 		for _, call := range writes {
 			switch call.Call.Method.Name() {
 			case "Write":
+				// for _, part := range [][]byte{a, b, c} { h.Write(part) }: the parts in literal order
+				if elems, isRange := rangeLiteralElems(call); isRange && !summed {
+					for _, el := range elems {
+						s, o := concatSeq(el, 0)
+						ok = ok && o
+						seq = append(seq, s...)
+					}
+					continue
+				}
 				if summed || inLoop(call.Block()) {
 					ok = false
 				}
